@@ -3,7 +3,7 @@ import re
 
 from ..cfg import partitioned_dataflow
 from ..facts import AnalysisBroken, walk, strip_targs
-from ..pp import pp, skip
+from ..pp import pp, skip, canon_text as CT
 from ..util import (args, assignment, callee, incdec, is_call, is_literal, obj, strip_not, literal_value,
                     find_var, parameter_name, writes_in, root_of, unwrap_view)
 from ..util import ref_decl_v as ref_decl
@@ -491,7 +491,7 @@ def rule_state_coupdate(F, R):
     for f in three:
         vars_ = {v["n"]: pp(v["c"][0]) for v in f.nodes() if v["k"] == "var" and v.get("c")}
         fxp = f.params[2]["n"]
-        okg = vars_.get("better") in ("(df > 0)", "(df > 0.0)") and vars_.get("df") == "(m_fx - %s)" % fxp
+        okg = vars_.get("better") in (CT("(df > 0)"), CT("(df > 0.0)")) and vars_.get("df") == "(m_fx - %s)" % fxp
         wr = [n for n in f.nodes() if assignment(n) and pp(assignment(n)[0]) in group]
         guarded = all(any(anc["k"] == "if" and pp(anc["c"][anc["r"].index("cond")]) == "better" for anc in f.ancestors(x)) and
                       any(anc["k"] == "if" and "isfinite(%s)" % fxp in pp(anc["c"][anc["r"].index("cond")]) for anc in f.ancestors(x)) for x in wr)
